@@ -175,6 +175,14 @@ func c09(c *Ctx) {
 		okAny := ioExit
 		var missing []string
 		for _, ch := range exitChans {
+			// a goroutine started as `go s.pump(conn, recv)`: the channel is the argument given at the go statement
+			if pr, isP := Deref(ch).(*ssa.Parameter); isP && pr.Parent() == fn {
+				if g, isCall := ri.r.site.(ssa.CallInstruction); isCall && !g.Common().IsInvoke() {
+					if idx := paramIdx(pr); idx >= 0 && idx < len(g.Common().Args) {
+						ch = g.Common().Args[idx]
+					}
+				}
+			}
 			k := chanKey(ch)
 			if strings.HasPrefix(k, "field:") {
 				// a field of a Servicer type would be shared between connections (C03); per-connection object fields are fine
